@@ -17,6 +17,8 @@ forms of its helpers: R03.1 suspend-before-effect, R03.2 temp_buf empty at eat()
 with a known next character, R03.4 BOM flag cleared at stream start, R03.5 script pause position, R03.6 partial
 state lives in fields / helpers equal the reviewed normal forms.  These are necessary conditions of chunk
 independence that quantify over code, not over inputs.
+R03.7 table-text decision is existential over pending tokens; R03.3 also: ignore_lf consumed on every path that saw it; R03.1 also:
+char-ref functions answer Stuck on an empty queue without a state change.
 """
 ASSUMPTIONS = ["BufferQueue primitives return None only when they consumed nothing (C13)", "ref/html_tokenizer.json reviewed"]
 
